@@ -67,6 +67,13 @@ def set_paths(mod, fn: ast.FunctionDef, want: str) -> Tuple[Optional[bool], str]
                                f"(`{p.cond_text()[:60]}`): list lengths count duplicates, the set relation does not")
             unknown = f"a constant is returned under `{p.cond_text()[:60]}`"
             continue
+        # membership tested element by element against the *list* (`x in right`, any(... in right ...)) compares with
+        # ==, which the CEL types refuse across kinds (TypeError for "a" == 1): the relation must be computed on sets
+        listwise = [c for c in ast.walk(core) if isinstance(c, ast.Compare) and len(c.ops) == 1 and isinstance(c.ops[0], (ast.In, ast.NotIn))
+                    and isinstance(strip_cast(c.comparators[0]), ast.Name) and strip_cast(c.comparators[0]).id in params]
+        if listwise:
+            return False, (f"tests membership element by element against the list (`{ast.unparse(listwise[0])}`): list membership compares with ==, which raises for operands of "
+                           "different CEL types, so lists of mixed or different element types give an error instead of the set relation")
         fake = ast.FunctionDef(name=fn.name, args=fn.args, body=[ast.Return(value=p.value)], decorator_list=[], returns=None)
         kind, why = set_algebra(fake)
         if kind is None:
